@@ -621,6 +621,24 @@ func c13Extra() *core.Space {
 			}
 			return ""
 		}},
+		{"pre-filled self-unpacking values in a field, behind a pointer, in a list and in a map: what their Unpack does not assign stays", func() string {
+			t := &struct {
+				U c13SelfU
+				P *c13SelfU
+				L []c13SelfU
+				M map[string]c13SelfU
+				Q []*c13SelfU
+			}{U: c13SelfU{5, 10}, P: &c13SelfU{5, 10}, L: []c13SelfU{{5, 10}}, M: map[string]c13SelfU{"k": {5, 10}}, Q: []*c13SelfU{{5, 10}}}
+			set := M{"min": 7}
+			if err := mustCfg(M{"u": set, "p": set, "l": L{set}, "m": M{"k": set}, "q": L{set}}).Unpack(t); err != nil {
+				return err.Error()
+			}
+			want := c13SelfU{7, 10}
+			if t.U != want || *t.P != want || len(t.L) != 1 || t.L[0] != want || t.M["k"] != want || len(t.Q) != 1 || *t.Q[0] != want {
+				return fmt.Sprintf("U=%+v P=%+v L=%+v M=%+v Q[0]=%+v, want {Min:7 Max:10} everywhere", t.U, *t.P, t.L, t.M, *t.Q[0])
+			}
+			return ""
+		}},
 		{"top-level self-unpacking target whose Validate fails afterwards: unchanged", func() string {
 			t := &c13SelfV{"old", 3}
 			if err := mustCfg(M{"name": "new", "level": 12}).Unpack(t); err == nil {
